@@ -147,6 +147,39 @@ def postLen (S : Schema) (rec : Loader) (f : FieldD) (p : Bytes) : R Val :=
       | some d => (rec d (freshState d) p).bind fun st => .ok (.msg c st.slots true st.unknown st.cur)
   else .ok (.byt p)
 
+/-- the value a known, fitting field decodes to (packed chunk, scalar, map entry, …) -/
+def decodeValue (S : Schema) (rec : Loader) (f : FieldD) (pf : PField) : R Val :=
+  if pf.wt == wireLenDelim && isPacked f.ty then (decodePacked f.ty pf.payload).bind fun vs => .ok (Val.list vs)
+  else if pf.wt == wireVarint then .ok (postVarint f.ty pf.vint)
+  else if pf.wt == wireFixed32 || pf.wt == wireFixed64 then postFixed f.ty pf.payload
+  else if f.ty == .map then
+    (rec (entryD f) (freshState (entryD f)) pf.payload).bind fun est =>
+      .ok (Val.dict [materialize S (entryD f).fields[0]! (est.slots.getD 0 .ph)]
+                    [materialize S (entryD f).fields[1]! (est.slots.getD 1 .ph)])
+  else postLen S rec f pf.payload
+
+/-- `current = getattr(self, name)`, or the default (assigned with `setattr`) if that
+    raised AttributeError; a PLACEHOLDER slot is materialised -/
+def prepCurrent (S : Schema) (d : MsgD) (st : MState) (idx : Nat) (f : FieldD) : MState :=
+  if hidden f idx st.cur then setAttr S d.fields st idx (defaultOf S f)
+  else { st with slots := setAt st.slots idx (materialize S f (st.slots.getD idx .ph)) }
+
+/-- map entry insert / list append or extend / `setattr(self, name, value)` -/
+def storeValue (S : Schema) (d : MsgD) (st1 : MState) (idx : Nat) (f : FieldD) (value : Val) : R MState :=
+  let current := st1.slots.getD idx .ph
+  if f.ty == .map then
+    match current, value with
+    | .dict ks vs, .dict [k] [v] =>
+      .ok { st1 with slots := setAt st1.slots idx (.dict (dictInsert ks vs k v).1 (dictInsert ks vs k v).2) }
+    | _, _ => .error .type
+  else
+    match current with
+    | .list xs =>
+      (match value with
+       | .list ys => .ok { st1 with slots := setAt st1.slots idx (.list (xs ++ ys)) }
+       | y => .ok { st1 with slots := setAt st1.slots idx (.list (xs ++ [y])) })
+    | _ => .ok (setAttr S d.fields st1 idx value)
+
 /-- one iteration of the loop of `Message.load` -/
 def applyField (S : Schema) (rec : Loader) (d : MsgD) (st : MState) (pf : PField) : R MState :=
   match findField d.fields pf.num with
@@ -157,33 +190,8 @@ def applyField (S : Schema) (rec : Loader) (d : MsgD) (st : MState) (pf : PField
     | some f =>
       if !wireFits f pf.wt then .ok { st with unknown := st.unknown ++ pf.raw }
       else
-        -- decode the value
-        (if pf.wt == wireLenDelim && isPacked f.ty then (decodePacked f.ty pf.payload).bind fun vs => .ok (Val.list vs)
-         else if pf.wt == wireVarint then .ok (postVarint f.ty pf.vint)
-         else if pf.wt == wireFixed32 || pf.wt == wireFixed64 then postFixed f.ty pf.payload
-         else if f.ty == .map then
-           (rec (entryD f) (freshState (entryD f)) pf.payload).bind fun est =>
-             .ok (Val.dict [materialize S (entryD f).fields[0]! (est.slots.getD 0 .ph)]
-                           [materialize S (entryD f).fields[1]! (est.slots.getD 1 .ph)])
-         else postLen S rec f pf.payload).bind fun value =>
-        -- current = getattr(self, name), or the default (assigned) if that raised
-        let st1 : MState :=
-          if hidden f idx st.cur then setAttr S d.fields st idx (defaultOf S f)
-          else { st with slots := setAt st.slots idx (materialize S f (st.slots.getD idx .ph)) }
-        let current := st1.slots.getD idx .ph
-        if f.ty == .map then
-          match current, value with
-          | .dict ks vs, .dict [k] [v] =>
-            let (ks', vs') := dictInsert ks vs k v
-            .ok { st1 with slots := setAt st1.slots idx (.dict ks' vs') }
-          | _, _ => .error .type
-        else
-          match current with
-          | .list xs =>
-            (match value with
-             | .list ys => .ok { st1 with slots := setAt st1.slots idx (.list (xs ++ ys)) }
-             | y => .ok { st1 with slots := setAt st1.slots idx (.list (xs ++ [y])) })
-          | _ => .ok (setAttr S d.fields st1 idx value)
+        (decodeValue S rec f pf).bind fun value =>
+          storeValue S d (prepCurrent S d st idx f) idx f value
 
 def foldFields (S : Schema) (rec : Loader) (d : MsgD) : MState → List PField → R MState
   | st, [] => .ok st
